@@ -147,6 +147,11 @@ var builtinOpaque = map[string]string{
 	"sync/atomic.Uint32": "Int",
 	"sync/atomic.Uint64": "Int",
 	"sync/atomic.Bool":   "Bool",
+	"go.uber.org/atomic.Uint64": "Int",
+	"go.uber.org/atomic.Int64":  "Int",
+	"go.uber.org/atomic.Uint32": "Int",
+	"go.uber.org/atomic.Int32":  "Int",
+	"go.uber.org/atomic.Bool":   "Bool",
 }
 
 func (tc *TypeCtx) opaqueSort(t types.Type) (string, bool) {
